@@ -105,7 +105,8 @@ int cmdInject(int argc, char** argv) {
 			JV f = jparse(faults[k]);
 			for (auto& p : f["patch"].a) {
 				size_t off = (size_t) p.a[0].n;
-				uint32_t v = p.a[1].n < 0 ? NIF_NPOS : (uint32_t) p.a[1].n;
+				// (negative values are the low 32 bits: -1 = 0xFFFFFFFF "no block", -2 = 0xFFFFFFFE far beyond the count)
+				uint32_t v = (uint32_t) (long long) p.a[1].n;
 				if (off + 4 <= b.size()) memcpy(&b[off], &v, 4);
 			}
 			out += pipeline(b, caseOf(k));
